@@ -337,7 +337,7 @@ Section Facts.
     enter_control st m <> VPanic.
   Proof.
     intros st m p Hcv Ety. destruct (cv_control m p Hcv Ety) as (x & Hx & _).
-    unfold enter_control. rewrite Hx. dgoal; discriminate.
+    unfold enter_control. rewrite Hx. repeat dgoal; discriminate.
   Qed.
 
   Lemma internal_switch_safe : forall m i pre, deref (fld "Internal" m) = Some i -> internal_ok i ->
@@ -613,6 +613,7 @@ Section Facts.
     intros st m p cs Hcv Ety H. destruct (cv_control m p Hcv Ety) as (x & Hx & Hc).
     apply check_message_ok in Hc as (_ & Hrc).
     unfold enter_control in H. rewrite Hx in H.
+    destruct (to_self _ _ _ _) in H; [discriminate|].
     destruct (reaches_offline _ _ _ _ && delivered _ _) in H; inversion H; subst;
       repeat first [apply Forall_nil | apply Forall_cons]; first [exact Hrc | exact I].
   Qed.
@@ -714,6 +715,114 @@ Section Facts.
     - now apply Hrest.
   Qed.
 
+  (* ---- nothing is looped back to the sender ---------------------------------------------------------------------------
+     Whatever the tree (any fixes), the state and the frame: a call that reaches the forwarding part of
+     processMessageMsg / processControlMsg never names the sender itself as recipient (own session id, own
+     non-empty user id) - such frames end in VIgnored (or in the error of the media validation) before any
+     table of the hub is consulted.  The one exception is what the code does on purpose: media signalling
+     addressed to the own session id is handed to the media server (publishing). *)
+  Definition not_to_self (st : session_state) (c : call) : Prop :=
+    match c with
+    | CControl rt sid uid _ => to_self st rt sid uid = false
+    | CMessage rt sid uid _ None => to_self st rt sid uid = false
+    | CMessage rt sid uid _ (Some d) => to_self st rt sid uid = false \/ eqs rt "session" && mcu_direct d = true
+    | _ => True
+    end.
+
+  Lemma enter_message_nts : forall st m cs, enter_message sdp_ok st m = VDispatch cs -> Forall (not_to_self st) cs.
+  Proof.
+    intros st m cs H. unfold enter_message, forward in H. cbv zeta in H.
+    repeat dhyp H; try discriminate; inversion H; subst; repeat first [apply Forall_cons | apply Forall_nil]; cbn; auto.
+  Qed.
+
+  Lemma enter_control_nts : forall st m cs, enter_control st m = VDispatch cs -> Forall (not_to_self st) cs.
+  Proof.
+    intros st m cs H. unfold enter_control in H. cbv zeta in H.
+    repeat dhyp H; try discriminate; inversion H; subst; repeat constructor; cbn; auto.
+  Qed.
+
+  Lemma internal_switch_nts : forall st m pre cs, Forall (not_to_self st) pre ->
+    internal_switch m pre = VDispatch cs -> Forall (not_to_self st) cs.
+  Proof.
+    intros st m pre cs Hp H. unfold internal_switch in H. cbv zeta in H.
+    repeat dhyp H; try discriminate; inversion H; subst;
+      first [ assumption | apply Forall_app; split; [assumption | repeat constructor] ].
+  Qed.
+
+  Lemma enter_internal_nts : forall fixed st m cs, enter_internal fixed st m = VDispatch cs -> Forall (not_to_self st) cs.
+  Proof.
+    intros fixed st m cs H. unfold enter_internal in H. cbv zeta in H.
+    repeat dhyp H; try discriminate;
+      first [ apply (internal_switch_nts st m _ cs) in H;
+                [exact H | first [apply Forall_nil | apply Forall_cons; [exact I | apply Forall_nil]]]
+            | inversion H; subst; apply Forall_cons; [exact I | apply Forall_nil] ].
+  Qed.
+
+  Lemma simple_nts : forall st cs, Forall (fun c => match c with CMessage _ _ _ _ _ | CControl _ _ _ _ => False | _ => True end) cs ->
+    Forall (not_to_self st) cs.
+  Proof.
+    intros st cs H. induction H as [|c l Hc _ IH]; constructor; [|exact IH]. destruct c; cbn; auto; contradiction.
+  Qed.
+
+  Theorem not_looped : forall fx st i cs, classify fx st i = VDispatch cs -> Forall (not_to_self st) cs.
+  Proof.
+    intros fx st [| | |j] cs H; unfold ClientMsg.classify in H; try discriminate.
+    destruct (negb (skipped_ok ty_client j)); [discriminate|].
+    destruct (decode ty_client (zero ty_client) j) as [m|]; [|discriminate].
+    destruct (check_valid m) as [p|c] eqn:Hcv; [|discriminate].
+    destruct (negb (fx_label fx) && negb (utf8_valid (sfld "Type" m))); [discriminate|].
+    unfold ClientMsg.dispatch in H.
+    assert (Hrest : (if negb (eqs (sfld "Type" m) "room" || eqs (sfld "Type" m) "hello" || eqs (sfld "Type" m) "bye") && ss_federated st
+                     then enter_proxy m
+                     else if eqs (sfld "Type" m) "room" then enter_room m p
+                     else if eqs (sfld "Type" m) "message" then enter_message sdp_ok st m
+                     else if eqs (sfld "Type" m) "control" then enter_control st m
+                     else if eqs (sfld "Type" m) "internal" then enter_internal (fx_dialout fx) st m
+                     else if eqs (sfld "Type" m) "transient" then enter_transient st m
+                     else if eqs (sfld "Type" m) "bye" then VDispatch [CBye] else VIgnored) = VDispatch cs -> Forall (not_to_self st) cs).
+    { intros H'.
+      destruct (negb (eqs (sfld "Type" m) "room" || eqs (sfld "Type" m) "hello" || eqs (sfld "Type" m) "bye") && ss_federated st).
+      { apply simple_nts. unfold enter_proxy in H'. repeat dhyp H'; try discriminate; inversion H'; subst; repeat constructor. }
+      destruct (eqs (sfld "Type" m) "room").
+      { apply simple_nts. unfold enter_room in H'. repeat dhyp H'; try discriminate; inversion H'; subst; repeat constructor. }
+      destruct (eqs (sfld "Type" m) "message"); [now apply enter_message_nts with m|].
+      destruct (eqs (sfld "Type" m) "control"); [now apply enter_control_nts with m|].
+      destruct (eqs (sfld "Type" m) "internal"); [now apply enter_internal_nts with (fx_dialout fx) m|].
+      destruct (eqs (sfld "Type" m) "transient").
+      { apply simple_nts. unfold enter_transient in H'. repeat dhyp H'; try discriminate; inversion H'; subst; repeat constructor. }
+      destruct (eqs (sfld "Type" m) "bye"); [|discriminate]. inversion H'; subst. repeat constructor. }
+    destruct (ss_kind st).
+    - destruct (eqs (sfld "Type" m) "hello"); [|discriminate].
+      apply simple_nts. unfold enter_hello in H. cbv zeta in H. repeat dhyp H; try discriminate; inversion H; subst; repeat constructor.
+    - now apply Hrest.
+    - now apply Hrest.
+  Qed.
+
+  (* the other direction, at the handlers: a control message to the sender itself is dropped whatever else it says;
+     a message to the sender itself is dropped, refused by the media validation, or handed to the media server *)
+  Lemma self_control_dropped : forall st m c,
+    deref (fld "Control" m) = Some c ->
+    to_self st (sfld "Type" (fld "Recipient" c)) (sfld "SessionId" (fld "Recipient" c)) (sfld "UserId" (fld "Recipient" c)) = true ->
+    enter_control st m = VIgnored.
+  Proof. intros st m c Hc Hs. unfold enter_control. rewrite Hc. cbv zeta. rewrite Hs. reflexivity. Qed.
+
+  Lemma self_message_dropped : forall st m mm,
+    deref (fld "Message" m) = Some mm ->
+    to_self st (sfld "Type" (fld "Recipient" mm)) (sfld "SessionId" (fld "Recipient" mm)) (sfld "UserId" (fld "Recipient" mm)) = true ->
+    match enter_message sdp_ok st m with
+    | VIgnored | VError _ _ => True
+    | VDispatch [CMessage rt _ _ _ (Some d)] => ss_mcu st = true /\ eqs rt "session" && mcu_direct d = true
+    | _ => False
+    end.
+  Proof.
+    intros st m mm Hm Hs. unfold enter_message. rewrite Hm. cbv zeta. rewrite Hs.
+    destruct (ss_mcu st && _) eqn:Hl; [|exact I].
+    destruct (std_unmarshal ty_mcudata _) as [d|]; [|exact I].
+    destruct (check_mcudata sdp_ok d); [exact I|].
+    destruct (eqs _ "session" && mcu_direct d) eqn:Hd; [|exact I].
+    split; [|exact Hd]. apply andb_prop in Hl. tauto.
+  Qed.
+
   (* ---- the request waiting for the dialout response is always answered ------------------------------------------------ *)
   Lemma api_outcome_ok : forall d dv, deref d = Some dv -> dialout_ok dv -> exists c, api_outcome d = AStatus c.
   Proof.
@@ -735,9 +844,11 @@ End Facts.
 Definition any_ok (_ : string) : bool := true.
 Definition st_pending : session_state :=
   {| ss_kind := SInternal; ss_federated := false; ss_pending := ["PENDING"]; ss_mcu := true; ss_inroom := false;
+     ss_self := "int1"; ss_self_user := "";
      ss_offline := []; ss_offline_users := []; ss_offline_room := false; ss_offline_call := false |}.
 Definition st_fresh : session_state :=
   {| ss_kind := SNone; ss_federated := false; ss_pending := []; ss_mcu := true; ss_inroom := false;
+     ss_self := ""; ss_self_user := "";
      ss_offline := []; ss_offline_users := []; ss_offline_room := false; ss_offline_call := false |}.
 
 (* {"id":"PENDING","type":"internal","internal":{"type":"incall","incall":{"incall":1}}} *)
@@ -774,6 +885,7 @@ Proof. repeat split; vm_compute; reflexivity. Qed.
 (* ---- non-vacuity ---------------------------------------------------------------------------------------------------------------- *)
 Definition st_room : session_state :=
   {| ss_kind := SClient; ss_federated := false; ss_pending := []; ss_mcu := true; ss_inroom := true;
+     ss_self := "me"; ss_self_user := "u1";
      ss_offline := ["gone"]; ss_offline_users := ["u9"]; ss_offline_room := true; ss_offline_call := false |}.
 Definition ex_message : json :=
   JObj [("id", JStr "m1"); ("type", JStr "message");
@@ -799,3 +911,28 @@ Lemma examples_ok :
     [Some ("invalid_format", ""); Some ("invalid_format", ""); Some ("invalid_format", ""); Some ("invalid_format", "");
      Some ("invalid_format", ""); Some ("invalid_hello_version", ""); Some ("invalid_format", "")].
 Proof. repeat split; vm_compute; reflexivity. Qed.
+
+(* frames that address the sender itself (st_room: own session id "me", own user "u1"): control and plain
+   messages are dropped, media signalling to the own session id goes to the media server, the same control
+   message to somebody else is forwarded; none of them is invalid *)
+Definition ex_to rkind (rc : list (string * json)) (data : json) : json :=
+  JObj [("id", JStr "s"); ("type", JStr rkind); (rkind, JObj [("recipient", JObj rc); ("data", data)])].
+Definition ex_self : list json :=
+  [ex_to "control" [("type", JStr "session"); ("sessionid", JStr "me")] (JObj [("x", JNum 1)]);
+   ex_to "control" [("type", JStr "user"); ("userid", JStr "u1")] (JBool false);
+   ex_to "message" [("type", JStr "session"); ("sessionid", JStr "me")] (JObj [("x", JNum 1)]);
+   ex_to "message" [("type", JStr "user"); ("userid", JStr "u1"); ("sessionid", JStr "abc")] (JStr "x");
+   ex_to "message" [("type", JStr "session"); ("sessionid", JStr "me")] (JObj [("type", JStr "sendoffer"); ("roomType", JStr "video")])].
+Definition ex_self_offer : json :=
+  ex_to "message" [("type", JStr "session"); ("sessionid", JStr "me")]
+    (JObj [("type", JStr "offer"); ("roomType", JStr "video"); ("payload", JObj [("sdp", JStr "v=0")])]).
+Definition ex_control_other : json :=
+  ex_to "control" [("type", JStr "session"); ("sessionid", JStr "abc")] (JObj [("x", JNum 1)]).
+
+Lemma self_examples :
+  map (fun j => classify any_ok any_ok any_ok repaired st_room (IDoc j)) ex_self = [VIgnored; VIgnored; VIgnored; VIgnored; VIgnored] /\
+  (exists d, classify any_ok any_ok any_ok repaired st_room (IDoc ex_self_offer) =
+               VDispatch [CMessage "session" "me" "" (JObj [("type", JStr "offer"); ("roomType", JStr "video"); ("payload", JObj [("sdp", JStr "v=0")])]) (Some d)]) /\
+  classify any_ok any_ok any_ok repaired st_room (IDoc ex_control_other) = VDispatch [CControl "session" "abc" "" (JObj [("x", JNum 1)])] /\
+  map (rejected any_ok any_ok) (ex_self ++ [ex_self_offer; ex_control_other]) = [None; None; None; None; None; None; None].
+Proof. repeat split; try (eexists; vm_compute; reflexivity); vm_compute; reflexivity. Qed.
